@@ -26,6 +26,18 @@ JRej   == {[pre |-> <<RR(NB, "ANY", "A", 0, 0)>>, upd |-> <<RR(NB, "IN", "A", 30
            [pre |-> <<RR(NA, "NONE", "ANY", 0, 0)>>, upd |-> <<RR(NB, "IN", "A", 300, 2)>>],  \* a not in use?
            [pre |-> <<>>, upd |-> <<RR(NB, "IN", "A", 300, 2), RR(NA, "CH", "A", 0, 1)>>],    \* prescan FORMERR
            [pre |-> <<>>, upd |-> <<>>]}
+\* a zone-class update RR with RDLENGTH 0 (UpdateOps!EmptyAdd): alone, after and before a real add
+JEmpty == {[pre |-> <<>>, upd |-> <<RR(NB, "IN", "A", 300, 0)>>],
+           [pre |-> <<>>, upd |-> <<RR(NB, "IN", "A", 300, 1), RR(NB, "IN", "A", 300, 0)>>],
+           [pre |-> <<>>, upd |-> <<RR(NA, "IN", "A", 300, 0), RR(NB, "IN", "A", 300, 2)>>]}
+\* long journals: the zone ZS padded with n more A records at one owner, so that the initial dump
+\* has 4 + n rows, then three messages whose rows are add, delete, SOA / add, SOA / delete, SOA.
+\* Sweeping n moves each kind of row over a given row number (65, 130, ...).
+NP == <<"p">> \o AP
+ZPad(pn) == ZS \cup {<<NP, "A", k>> : k \in 1..pn}
+JLong1 == [pre |-> <<>>, upd |-> <<RR(NB, "IN", "A", 300, 1), RR(NA, "NONE", "A", 0, 1)>>]
+JLong2 == [pre |-> <<>>, upd |-> <<RR(NB, "IN", "A", 300, 2)>>]
+JLong3 == [pre |-> <<>>, upd |-> <<RR(NP, "NONE", "A", 0, 3)>>]
 JMsgs  == JMsgs1 \cup JMsgs2 \cup JMsgs3 \cup JRej
 JSmall == JMsgs1 \cup JMsgs3 \cup JRej
 =============================================================================
